@@ -236,6 +236,22 @@ def cgr(seed, runs, maxlen):
         except ValueError:
             pts = None
         cgr_event(text, size, pts, "py")
+    # control characters are not nucleotides either (the k-mer code's lookup table reads 0x00..0x03 as pre-encoded bases; the
+    # chaos game has no corner for them)
+    for j, ch in enumerate("\x00\x01\x02\x03\x7f\x1b"):
+        size = sizes[j % len(sizes)]
+        c = pk.CgrComputer(size)
+        for text in (ch, "ACG" + ch, ch + "T", "AC" + ch + "GT"):
+            try:
+                pts = c.vectorise_one(text)
+            except ValueError:
+                pts = None
+            cgr_event(text, size, pts, "py")
+        try:
+            c.vectorise_batch(["ACGT", "GG" + ch, "TT"])
+            emit({"ev": "pyerror", "what": "batch with a control character did not raise"})
+        except ValueError:
+            cgr_event("GG" + ch, size, None, "py-batch")
     # batches: all clean -> list in argument order; one bad -> ValueError for the whole call
     for bs in (0, 1, 7, 300, 1500):
         size = rng.choice(sizes)
@@ -295,6 +311,49 @@ def bits(fa, size, kmax):
                 emit({"ev": "bits", "what": "oligo", "k": k, "norm": 1 if norm else 0, "i": i, "d": h})
 
 
+def threads(seed):
+    """two Python threads using the same computer objects at the same time: every call returns what it returns alone"""
+    import hashlib, struct, threading
+    rng = random.Random(seed)
+    seqs = ["".join(rng.choice("ACGTacgu") for _ in range(rng.randint(50, 400))) for _ in range(4000)]
+    oc = pk.OligoComputer(4)
+    cc = pk.CgrComputer(16)
+
+    def dig_o(res):
+        return hashlib.sha256(b"".join(struct.pack("<d", x) for v in res for x in v)).hexdigest()[:16]
+
+    def dig_c(res):
+        return hashlib.sha256(b"".join(struct.pack("<dd", x, y) for v in res for (x, y) in v)).hexdigest()[:16]
+
+    jobs = {
+        "oligo vectorise_batch": lambda: dig_o(oc.vectorise_batch(list(seqs), True)),
+        "oligo vectorise_one": lambda: dig_o([oc.vectorise_one(s, False) for s in seqs[:1500]]),
+        "cgr vectorise_batch": lambda: dig_c(cc.vectorise_batch(list(seqs[:1500]))),
+        "kmer iterators": lambda: hashlib.sha256(repr([list(pk.KmerGenerator(s, 5)) for s in seqs[:300]]).encode()).hexdigest()[:16],
+    }
+    alone = {name: job() for name, job in jobs.items()}
+    for rnd in range(3):
+        got = {}
+
+        def run(name, slot):
+            try:
+                got[(name, slot)] = jobs[name]()
+            except BaseException as e:          # noqa
+                got[(name, slot)] = "raised %s: %s" % (type(e).__name__, e)
+        names = list(jobs)
+        # the same job twice at once, and two different jobs on the same objects
+        pairs = [(n, n) for n in names] + [(names[0], names[1]), (names[0], names[2])]
+        for a, b in pairs:
+            ts = [threading.Thread(target=run, args=(a, 0)), threading.Thread(target=run, args=(b, 1))]
+            for t in ts:
+                t.start()
+            for t in ts:
+                t.join()
+            for slot, n in ((0, a), (1, b)):
+                emit({"ev": "eq", "what": "two python threads (%s | %s), round %d: %s" % (a, b, rnd, n), "a": alone[n], "b": got.get((n, slot), "missing")})
+    emit({"ev": "eof"})
+
+
 def main():
     cmd = sys.argv[2]
     a = sys.argv[3:]
@@ -312,6 +371,8 @@ def main():
         cgr(int(a[0]), int(a[1]), int(a[2]))
     elif cmd == "batch":
         batch(int(a[0]))
+    elif cmd == "threads":
+        threads(int(a[0]))
     elif cmd == "bits":
         bits(a[0], int(a[1]), int(a[2]))
     else:
